@@ -301,7 +301,7 @@ class C17(PropertyCheck):
                     others[sub] = names
         N = len(utts)
         kind = rng.choice(["first_n", "last_n", "shortest_n", "longest_n", "first_ratio", "last_ratio",
-                           "shortest_ratio", "longest_ratio", "utt_list", "utt_list_file", "rand_n"])
+                           "shortest_ratio", "longest_ratio", "utt_list", "utt_list_file", "rand_n", "rand_ratio"])
         crit = {"kind": kind}
         if kind.endswith("_n"):
             crit["n"] = rng.choice([0, 1, 2, N, N + 2, max(N - 1, 0)])
@@ -623,6 +623,8 @@ class C17(PropertyCheck):
                     argv += ["--seed", str(case["seed"])]
             elif c["kind"].endswith("_ratio"):
                 argv += [flag, repr(float(Fraction(c["q"])))]
+                if c["kind"] == "rand_ratio":
+                    argv += ["--seed", str(case["seed"])]
             elif c["kind"] == "utt_list_file":
                 lp = os.path.join(d, "list.txt")
                 with open(lp, "w") as f:
@@ -651,7 +653,7 @@ class C17(PropertyCheck):
 
             ret, got, same = run(dest)
             out = {"ret": ret, "dest": got, "identical": same}
-            if c["kind"] == "rand_n":
+            if c["kind"].startswith("rand_"):
                 out["again"] = run(os.path.join(d, "dest2"))[1]
             return out
 
@@ -752,6 +754,8 @@ class C17(PropertyCheck):
                 c["kind"] = "utt_list"
             if c["kind"] == "rand_n":
                 c = {"kind": "first_n", "n": c["n"]}
+            if c["kind"] == "rand_ratio":
+                c = {"kind": "first_ratio", "q": c["q"]}
             return {"op": "c17.subset", "case": {"prefix": p, "suffix": s,
                                                   "feat": [[T, n] for n, T in case["feat"]],
                                                   "others": [[sub, names] for sub, names in case["others"].items()],
@@ -1061,7 +1065,7 @@ class C17(PropertyCheck):
     def cmp_subset(self, case, impl, model):
         if self._err(impl):
             return [f"command raised {impl['error']}: {impl.get('message')}"]
-        if case["crit"]["kind"] == "rand_n":
+        if case["crit"]["kind"].startswith("rand_"):
             return []
         mdest = sorted(a + "/" + b for a, b in model["dest"])
         return [] if impl["dest"] == mdest else [f"dest impl={impl['dest']} model={mdest}"]
@@ -1076,11 +1080,20 @@ class C17(PropertyCheck):
         avail = sorted(n for n, _ in case["feat"] if matches(p, s, n))
         got_feat = sorted(x[len("feat/"):] for x in impl["dest"] if x.startswith("feat/"))
         c = case["crit"]
-        if c["kind"] == "rand_n":
-            if len(got_feat) != min(c["n"], len(avail)) or not set(got_feat) <= set(avail):
-                fails.append((f"--rand-n {c['n']}: extracted {got_feat} from {avail}", None))
+        if c["kind"].startswith("rand_"):
+            # the random criteria: size (the model's count for the same n / ratio), subset of what is
+            # there, the other sub-directories follow, same --seed = same subset
+            size = len(model["selected"]) if model is not None else None
+            if (size is not None and len(got_feat) != size) or not set(got_feat) <= set(avail) \
+                    or len(set(got_feat)) != len(got_feat):
+                fails.append((f"--{c['kind'].replace('_', '-')} {c.get('n', c.get('q'))}: extracted {got_feat} "
+                              f"from {avail}, expected {size} of them", None))
+            for sub, names in case["others"].items():
+                got = sorted(x[len(sub) + 1:] for x in impl["dest"] if x.startswith(sub + "/"))
+                if got != sorted(set(got_feat) & set(names)):
+                    fails.append((f"{sub}/: extracted {got}, expected {sorted(set(got_feat) & set(names))}", None))
             if impl["again"] != impl["dest"]:
-                fails.append(("--rand-n with the same --seed extracted a different subset", None))
+                fails.append((f"--{c['kind'].replace('_', '-')} with the same --seed extracted a different subset", None))
             return fails
         want = sorted(p + u + s for u in model["selected"])
         if got_feat != want:
